@@ -39,6 +39,20 @@ func c13StepSrc(s string) string {
 		return ".{|x| x.nonexistent}"
 	case "Lraise":
 		return fmt.Sprintf(".{|x| raise %s.new(\"boom\")}", p[1])
+	case "Lpair":
+		return ".{|x| [x, x + 1]}"
+	case "Lsum2":
+		return ".{|a, b| a + b}"
+	case "Lone":
+		return ".{|xs| xs}"
+	case "Lfirst":
+		return ".{|a, b| a}"
+	case "len":
+		return ".len"
+	case "Ltry":
+		return ".{|x| x.try}"
+	case "Ltryfail":
+		return ".{|x| 1.try./(0)}"
 	case "Sb2len":
 		// a property-call step that carries a keyword argument (through the proxy): binary text and back = identity
 		return ".{|x| x.S(base: 2)}.I(base: 2)"
@@ -67,6 +81,20 @@ func c13Canon(o object.PanObject) string {
 		return "[" + strings.Join(parts, ",") + "]"
 	case *object.PanErrWrapper:
 		return string(v.ErrKind)
+	case *object.PanObj:
+		// an Either held as a value
+		if v.Proto() == object.BuiltInEitherValObj {
+			if p, ok := (*v.Pairs)[object.GetSymHash("_value")]; ok {
+				return "ev(" + c13Canon(p.Value) + ")"
+			}
+		}
+		if v.Proto() == object.BuiltInEitherErrObj {
+			if p, ok := (*v.Pairs)[object.GetSymHash("_error")]; ok {
+				if w, ok := p.Value.(*object.PanErrWrapper); ok {
+					return "ee(" + string(w.ErrKind) + ")"
+				}
+			}
+		}
 	case *object.PanErr:
 		return "raise " + string(v.ErrKind)
 	}
@@ -112,6 +140,25 @@ func genC13(c *Ctx) {
 		}
 		if k > 0 && c.Rng.Intn(5) == 0 {
 			steps[c.Rng.Intn(k)] = "Sb2len"
+		}
+		// array-valued intermediate results: `Lpair` makes one, the following steps are those that accept an array
+		// (one- and two-parameter literals, `len`) until `Lsum2` / `len` / `Lfirst` leads back to an int
+		if k > 0 && c.Rng.Intn(3) == 0 {
+			j := c.Rng.Intn(k)
+			steps[j] = "Lpair"
+			for j++; j < k; j++ {
+				pick := c.Rng.Pick([]string{"Lone", "Lsum2", "len", "Lfirst", "Lone", "Lraise:" + c.Rng.Pick(c13ErrKinds)})
+				steps[j] = pick
+				if pick == "Lsum2" || pick == "len" || pick == "Lfirst" {
+					break
+				}
+			}
+		} else if k > 0 && c.Rng.Intn(4) == 0 {
+			steps[c.Rng.Intn(k)] = c.Rng.Pick([]string{"Lsum2", "Lfirst", "Lone"}) // the same literals on an int
+		}
+		// a last step whose own result is an Either
+		if k > 0 && c.Rng.Intn(6) == 0 && steps[k-1] != "Lnil" {
+			steps[k-1] = c.Rng.Pick([]string{"Ltry", "Ltryfail"})
 		}
 		if k > 0 && c.Rng.Intn(6) == 0 {
 			steps[k-1] = "Lnil" // a success whose value is nil (only as the last step: Nil has its own arithmetic props)
